@@ -34,6 +34,56 @@ fn meta(_ctx: &Ctx) -> EvidenceMeta {
     }
 }
 
+/// scalar unary operators with an i32, i64 or f32 operand: (builder operator,
+/// the operator the binary must contain, operand type 0 = i32, 1 = i64, 2 = f32)
+fn unops() -> &'static [(UnaryOp, &'static str, u8)] {
+    use UnaryOp::*;
+    &[
+        (I32Clz, "I32Clz", 0),
+        (I32Ctz, "I32Ctz", 0),
+        (I32Popcnt, "I32Popcnt", 0),
+        (I64ExtendSI32, "I64ExtendI32S", 0),
+        (I64ExtendUI32, "I64ExtendI32U", 0),
+        (F32ConvertSI32, "F32ConvertI32S", 0),
+        (F32ConvertUI32, "F32ConvertI32U", 0),
+        (F64ConvertSI32, "F64ConvertI32S", 0),
+        (F64ConvertUI32, "F64ConvertI32U", 0),
+        (F32ReinterpretI32, "F32ReinterpretI32", 0),
+        (I32Extend8S, "I32Extend8S", 0),
+        (I32Extend16S, "I32Extend16S", 0),
+        (I64Eqz, "I64Eqz", 1),
+        (I64Clz, "I64Clz", 1),
+        (I64Ctz, "I64Ctz", 1),
+        (I64Popcnt, "I64Popcnt", 1),
+        (I32WrapI64, "I32WrapI64", 1),
+        (F32ConvertSI64, "F32ConvertI64S", 1),
+        (F32ConvertUI64, "F32ConvertI64U", 1),
+        (F64ConvertSI64, "F64ConvertI64S", 1),
+        (F64ConvertUI64, "F64ConvertI64U", 1),
+        (F64ReinterpretI64, "F64ReinterpretI64", 1),
+        (I64Extend8S, "I64Extend8S", 1),
+        (I64Extend16S, "I64Extend16S", 1),
+        (I64Extend32S, "I64Extend32S", 1),
+        (F32Abs, "F32Abs", 2),
+        (F32Neg, "F32Neg", 2),
+        (F32Ceil, "F32Ceil", 2),
+        (F32Floor, "F32Floor", 2),
+        (F32Trunc, "F32Trunc", 2),
+        (F32Nearest, "F32Nearest", 2),
+        (F32Sqrt, "F32Sqrt", 2),
+        (I32TruncSF32, "I32TruncF32S", 2),
+        (I32TruncUF32, "I32TruncF32U", 2),
+        (I64TruncSF32, "I64TruncF32S", 2),
+        (I64TruncUF32, "I64TruncF32U", 2),
+        (F64PromoteF32, "F64PromoteF32", 2),
+        (I32ReinterpretF32, "I32ReinterpretF32", 2),
+        (I32TruncSSatF32, "I32TruncSatF32S", 2),
+        (I32TruncUSatF32, "I32TruncSatF32U", 2),
+        (I64TruncSSatF32, "I64TruncSatF32S", 2),
+        (I64TruncUSatF32, "I64TruncSatF32U", 2),
+    ]
+}
+
 #[derive(Clone, Debug)]
 enum Leaf {
     I32Const(i32),
@@ -43,6 +93,12 @@ enum Leaf {
     LocalTee(usize),
     I32Add,
     I32Eqz,
+    /// entry of `UNOPS`
+    Unop(usize),
+    /// load from memory `.0` (of three), shape `.1`: 0 = i32.load8_u with
+    /// all-zero immediates, 1 = i32.load align 4 offset 16, 2 = i32.load16_s
+    /// align 1 offset 0
+    Load(usize, u8),
     I64Const(i64),
     F32Const(u32),
     /// target = number of enclosing model sequences to skip (0 = innermost)
@@ -90,7 +146,24 @@ impl<'a, 'b> Gen<'a, 'b> {
             }
             self.budget -= 1;
             let l = |g: &mut Self| -> usize { *g.ch.pick(&g.i32_locals) };
-            match self.ch.below(17) {
+            match self.ch.below(19) {
+                17 if self.ch.chance(1, 2) => {
+                    let (m, shape) = (self.ch.below(3), self.ch.below(3) as u8);
+                    out.push(Node::Leaf(Leaf::I32Const(*self.ch.pick(crate::ch::I32_POOL))));
+                    out.push(Node::Leaf(Leaf::Load(m, shape)));
+                    out.push(Node::Leaf(Leaf::Drop));
+                }
+                17 | 18 => {
+                    // operator zoo: constant, one scalar unary operator, drop
+                    let k = self.ch.below(unops().len());
+                    out.push(Node::Leaf(match unops()[k].2 {
+                        0 => Leaf::I32Const(*self.ch.pick(crate::ch::I32_POOL)),
+                        1 => Leaf::I64Const(self.ch.u64() as i64),
+                        _ => Leaf::F32Const(self.ch.u32()),
+                    }));
+                    out.push(Node::Leaf(Leaf::Unop(k)));
+                    out.push(Node::Leaf(Leaf::Drop));
+                }
                 0 | 1 => {
                     let k = *self.ch.pick(crate::ch::I32_POOL);
                     out.push(Node::Leaf(Leaf::I32Const(k)));
@@ -256,6 +329,8 @@ pub enum Exp {
     Open(&'static str, bool),
     /// construct with a function-typed block type: (name, params, results)
     OpenSig(&'static str, usize, usize),
+    /// memory access: (name, log2 of the alignment, offset, memory index)
+    Mem(&'static str, u8, u64, u32),
 }
 
 /// `targets_result`: for every enclosing sequence (innermost last) whether a
@@ -275,6 +350,12 @@ fn flatten(nodes: &[Node], stack: &mut Vec<bool>, out: &mut Vec<Exp>, base: usiz
                 Leaf::LocalTee(a) => out.push(Exp::Local("LocalTee", *a)),
                 Leaf::I32Add => out.push(Exp::Op("I32Add")),
                 Leaf::I32Eqz => out.push(Exp::Op("I32Eqz")),
+                Leaf::Unop(k) => out.push(Exp::Op(unops()[*k].1)),
+                Leaf::Load(m, shape) => out.push(match shape {
+                    0 => Exp::Mem("I32Load8U", 0, 0, *m as u32),
+                    1 => Exp::Mem("I32Load", 2, 16, *m as u32),
+                    _ => Exp::Mem("I32Load16S", 0, 0, *m as u32),
+                }),
                 Leaf::I64Const(k) => out.push(Exp::Const64(*k)),
                 Leaf::F32Const(k) => out.push(Exp::ConstF32(*k)),
                 Leaf::Br(t) => out.push(Exp::Br("Br", resolve(*t, stack, base))),
@@ -364,6 +445,7 @@ struct Plan<'a, 'b> {
     /// see `resolve`
     base: usize,
     locals: Vec<LocalId>,
+    mems: Vec<MemoryId>,
     positional: usize,
     dangling: usize,
     closures: usize,
@@ -533,6 +615,26 @@ impl<'a, 'b> Plan<'a, 'b> {
                                 b.unop_at(pos, UnaryOp::I32Eqz);
                             } else {
                                 b.unop(UnaryOp::I32Eqz);
+                            }
+                        }
+                        Leaf::Load(m, shape) => {
+                            let memory = self.mems[*m];
+                            let (kind, arg) = match shape {
+                                0 => (LoadKind::I32_8 { kind: ExtendedLoad::ZeroExtend }, MemArg { align: 1, offset: 0 }),
+                                1 => (LoadKind::I32 { atomic: false }, MemArg { align: 4, offset: 16 }),
+                                _ => (LoadKind::I32_16 { kind: ExtendedLoad::SignExtend }, MemArg { align: 1, offset: 0 }),
+                            };
+                            if use_at {
+                                b.instr_at(pos, Load { memory, kind, arg });
+                            } else {
+                                b.instr(Load { memory, kind, arg });
+                            }
+                        }
+                        Leaf::Unop(k) => {
+                            if use_at {
+                                b.unop_at(pos, unops()[*k].0);
+                            } else {
+                                b.unop(unops()[*k].0);
                             }
                         }
                         Leaf::I64Const(v) => {
@@ -779,6 +881,8 @@ pub fn build_case(bytes: &[u8]) -> BuiltCase {
 
     // construction
     let mut module = Module::default();
+    // three memories for the loads of the operator zoo
+    let mems: Vec<MemoryId> = (0..3).map(|i| module.memories.add_local(false, false, 1 + i, None, None)).collect();
     // the module-wide local arena is filled in a generated order: a
     // parameter need not be older than the other locals of its function
     let mut alloc_order: Vec<usize> = (0..local_types.len()).collect();
@@ -815,6 +919,7 @@ pub fn build_case(bytes: &[u8]) -> BuiltCase {
         pooled: 0,
         base,
         locals,
+        mems,
         positional: 0,
         dangling: 0,
         closures: 0,
@@ -949,6 +1054,14 @@ pub fn check(_ctx: &Ctx, input: &Input) -> CaseResult {
                     return Err(bad("constant"));
                 }
             }
+            Exp::Mem(n, align, offset, memory) => {
+                if o.name != *n {
+                    return Err(bad("operator"));
+                }
+                if o.imms != vec![Imm::MemArg { align: *align, offset: *offset, memory: *memory }] {
+                    return Err(bad("memory-immediates"));
+                }
+            }
             Exp::Const64(k) => {
                 if o.name != "I64Const" || o.imms != vec![Imm::I64(*k)] {
                     return Err(bad("constant"));
@@ -1073,7 +1186,7 @@ pub fn check(_ctx: &Ctx, input: &Input) -> CaseResult {
 
 fn same_shape(o: &crate::ops::Op, e: &Exp) -> bool {
     match e {
-        Exp::Op(n) | Exp::Local(n, _) | Exp::Br(n, _) | Exp::Open(n, _) | Exp::OpenSig(n, _, _) => o.name == *n,
+        Exp::Op(n) | Exp::Local(n, _) | Exp::Br(n, _) | Exp::Open(n, _) | Exp::OpenSig(n, _, _) | Exp::Mem(n, _, _, _) => o.name == *n,
         Exp::Const(_) => o.name == "I32Const",
         Exp::Const64(_) => o.name == "I64Const",
         Exp::ConstF32(_) => o.name == "F32Const",
